@@ -237,9 +237,10 @@ def top(ctx, bstep, bt, btkey):
         return
     posk, rngk = K['self.position'], K['self.rng']
     bts = [e for e in ev.vf.events if e.key == btkey and e in ls.events]
-    if len(bts) != 2:
-        ctx.unknown('C03.t.calls', A, 'calls', why='expected one tree-builder call per direction in the doubling loop (found %d)' % len(bts), sp=ls.sp)
+    if len(bts) not in (1, 2):
+        ctx.unknown('C03.t.calls', A, 'calls', why='expected one tree-builder call per direction in the doubling loop, or one call from the edge selected by the direction (found %d)' % len(bts), sp=ls.sp)
         return
+    single = len(bts) == 1
     U1s = [s for s in draws if s.draw_kind == 'rng_random' and s.e in ls.events and s.gen is ls.lh[rngk]]
     if len(U1s) != 1:
         ctx.unknown('C03.t.dir', A, 'direction', why='direction draw not identified', sp=ls.sp)
@@ -253,16 +254,29 @@ def top(ctx, bstep, bt, btkey):
 
     def pc_of(e):
         return tuple(c for c in e.pc if c not in flags)
-    callm = [e for e in bts if pc_of(e) == (Vm,)]
-    callp = [e for e in bts if pc_of(e) == (T.lnot(Vm),)]
-    ctx.check('C03.t.dir', A, 'direction', len(callm) == 1 and len(callp) == 1, expected='v = 2[U < 1/2] - 1 in {-1,+1}; one call under v == -1, the other under v != -1',
-              found='; '.join('[%s]' % ' & '.join(show(c) for c in e.pc) for e in bts), sp=ls.sp, why='direction chosen uniformly; doubling goes backwards iff v = -1')
-    if len(callm) != 1 or len(callp) != 1:
-        return
-    cm, cp = callm[0], callp[0]
     lhs = {v_: k_ for k_, v_ in ls.lh.items()}
-    edges_m = [lhs.get(a) for a in cm.args[0:3]]
-    edges_p = [lhs.get(a) for a in cp.args[0:3]]
+    if single:
+        # one call whose start state is `if v == -1 { minus edge } else { plus edge }`
+        c1 = bts[0]
+        sel3 = [a for a in c1.args[0:3] if a[0] == 'ite' and a[1] is Vm]
+        okdir = pc_of(c1) == () and len(sel3) == 3
+        ctx.check('C03.t.dir', A, 'direction', okdir, expected='v = 2[U < 1/2] - 1 in {-1,+1}; the call starts from the minus edge iff v == -1, else from the plus edge',
+                  found='[%s] %s' % (' & '.join(show(c) for c in c1.pc), '; '.join(show(a)[:80] for a in c1.args[0:3])), sp=ls.sp, why='direction chosen uniformly; doubling goes backwards iff v = -1')
+        if not okdir:
+            return
+        cm = cp = c1
+        edges_m = [lhs.get(a[2]) for a in sel3]
+        edges_p = [lhs.get(a[3]) for a in sel3]
+    else:
+        callm = [e for e in bts if pc_of(e) == (Vm,)]
+        callp = [e for e in bts if pc_of(e) == (T.lnot(Vm),)]
+        ctx.check('C03.t.dir', A, 'direction', len(callm) == 1 and len(callp) == 1, expected='v = 2[U < 1/2] - 1 in {-1,+1}; one call under v == -1, the other under v != -1',
+                  found='; '.join('[%s]' % ' & '.join(show(c) for c in e.pc) for e in bts), sp=ls.sp, why='direction chosen uniformly; doubling goes backwards iff v = -1')
+        if len(callm) != 1 or len(callp) != 1:
+            return
+        cm, cp = callm[0], callp[0]
+        edges_m = [lhs.get(a) for a in cm.args[0:3]]
+        edges_p = [lhs.get(a) for a in cp.args[0:3]]
     if None in edges_m or None in edges_p or len(set(edges_m + edges_p)) != 6:
         ctx.bad('C03.t.call_args', A, 'call-edges', expected='each call starts from the three loop-carried edge variables of its side', found='%s / %s' % ([show(a) for a in cm.args[0:3]], [show(a) for a in cp.args[0:3]]), sp=ls.sp,
                 why='doubling continues from the outer edge on side v')
@@ -274,7 +288,10 @@ def top(ctx, bstep, bt, btkey):
            why='both edges start at the current (theta, r0, grad)')
     common = lambda ed: T.tup(ls.lh[ed[0]], ls.lh[ed[1]], ls.lh[ed[2]])
     jk = [k_ for k_ in ls.lh if cm.args[5] is ls.lh[k_]]
-    exp_args = lambda ed: T.tup(ls.lh[ed[0]], ls.lh[ed[1]], ls.lh[ed[2]], logu, v, ls.lh[jk[0]] if jk else S('?j'), eps, tgt, joint, rng1)
+    if single:
+        exp_args = lambda ed: T.tup(*([T.ite(Vm, ls.lh[a_], ls.lh[b_]) for a_, b_ in zip(edges_m, edges_p)] + [logu, v, ls.lh[jk[0]] if jk else S('?j'), eps, tgt, joint, rng1]))
+    else:
+        exp_args = lambda ed: T.tup(ls.lh[ed[0]], ls.lh[ed[1]], ls.lh[ed[2]], logu, v, ls.lh[jk[0]] if jk else S('?j'), eps, tgt, joint, rng1)
     ctx.eq('C03.t.call_minus', A, 'call(v=-1)', T.tup(*cm.args), exp_args(edges_m), sp=cm.sp, why='build_tree(theta-, r-, g-, log u, v, j, self.epsilon, target, joint0, generator)')
     ctx.eq('C03.t.call_plus', A, 'call(v=+1)', T.tup(*cp.args), exp_args(edges_p), sp=cp.sp, why='build_tree(theta+, r+, g+, log u, v, j, self.epsilon, target, joint0, generator)')
     ctx.eq('C03.t.logu', A, 'slice', cm.args[3], logu, sp=sp, why='log u = joint0 - Exp(1) with joint0 = logp(theta) - r0.r0/2 (one Exp1 draw from the chain generator, after the momentum)')
